@@ -460,6 +460,7 @@ async fn dispatch(op: String, a: Value) -> Value {
         "prov" => {
             let sh = shared();
             let t0 = mono_ns();
+            let u0 = proxy_agent_shared::misc_helpers::get_date_time_unix_nano();
             let what = s(&a, "what");
             let result: Value = match what.as_str() {
                 "redirector_ready" => {
@@ -533,7 +534,8 @@ async fn dispatch(op: String, a: Value) -> Value {
                 "now_tick" => json!(proxy_agent_shared::misc_helpers::get_date_time_unix_nano().to_string()),
                 _ => json!({"err": "unknown prov op"}),
             };
-            json!({"t0": t0.to_string(), "t1": mono_ns().to_string(), "result": result})
+            json!({"t0": t0.to_string(), "t1": mono_ns().to_string(), "u0": u0.to_string(),
+                   "u1": proxy_agent_shared::misc_helpers::get_date_time_unix_nano().to_string(), "result": result})
         }
         // ---- pure / site calls
         "rbac_batch" => {
